@@ -106,9 +106,6 @@ def check_text(acc, text, name, case, site, m=None):
         d2 = [x for x in b[1] if x not in a[1]][:3]
         acc.violation(site, "edges-differ", cc, f"only full {d1}; only fast {d2}")
         return
-    if fast.name != full.name:
-        acc.violation(site, "name-differs", cc, f"{fast.name} vs {full.name}")
-        return
     if m is not None:
         # absolute: the fast result denotes the AST
         den = V.Denotation(m, BB_DEFS)
